@@ -454,7 +454,8 @@ def main():
             "enable": "cargo build --offline --features verif --target-dir /verif/.cache/target (MASSCANNED_VERIF=1 selects the line-protocol driver at run time)",
             "baseline_off_cmd": "cd /repo && cargo test --workspace --no-fail-fast --offline",
             "source_commits": ["verif hooks: cargo feature 'verif' with line-protocol driver, table dump, TCB table accessors",
-                               "verif hooks: dump the SMB security blobs with the tables (feature 'verif')"],
+                               "verif hooks: dump the SMB security blobs with the tables (feature 'verif')",
+                               "verif hook: ADV <seconds> driver command (advances the clocks through the harness' preloaded clock shim)"],
             "add_only": True,
         },
         "engines": [{
